@@ -719,7 +719,7 @@ def run(tier, seed):
 
 
 def replay(path):
-    """re-run the workbook of a recorded violation"""
+    """re-run the workbook of a recorded violation; 0 if it now agrees"""
     with open(path) as f:
         rec = json.load(f)
     case = rec['case']
@@ -728,8 +728,22 @@ def replay(path):
         print('library-level case:', json.dumps(case)[:600])
         return 1
     m = xl.compile_wb(case['cells'], arrays=case['arrays'])
-    addr = case.get('read') or case.get('member')
-    got = call(m.evaluate, 'S!' + addr)
-    print(f'evaluate(S!{addr}) = {short(got)}')
-    print('expected', case.get('expected'))
-    return 1
+    want = case.get('expected')
+    if case.get('member'):
+        addr = case['member']
+        i, j = [(i, j) for i, row in enumerate(want) for j, _ in enumerate(row)
+                if ref(target_origin(case['target'])[0] + i,
+                       target_origin(case['target'])[1] + j, 1, 1) == addr][0]
+        got = call(m.evaluate, 'S!' + addr)
+        ok = not isinstance(got, Exception) and xl.same_value(got, want[i][j], tol=1e-12)
+        print(f'evaluate(S!{addr}) = {short(got)}; expected {want[i][j]!r}')
+    else:
+        addr = case['read']
+        got = call(m.evaluate, 'S!' + addr)
+        want = tuple(tuple(r) for r in want)
+        mat = None if isinstance(got, Exception) else \
+            shape_of(got, (len(want), len(want[0])))
+        ok = mat is not None and xl.same_value(mat, want, tol=1e-12)
+        print(f'evaluate(S!{addr}) = {short(got)}; expected {want!r}')
+    print('agrees' if ok else 'DISAGREES')
+    return 0 if ok else 1
